@@ -3,6 +3,7 @@ package main
 import (
 	"fmt"
 	"go/token"
+	"go/types"
 	"sort"
 	"strings"
 
@@ -440,6 +441,9 @@ func (cc *canonCtx) canon(s *Sym) string {
 		if cc.seen[ph] {
 			return "self"
 		}
+		if isCountingPhi(s, 0) {
+			return "IDX"
+		}
 		cc.seen[ph] = true
 		var es []string
 		for _, e := range ph.Edges {
@@ -455,6 +459,15 @@ func (cc *canonCtx) canon(s *Sym) string {
 	case "make":
 		return "make"
 	case "bin":
+		// the index of a loop over all elements of a slice, however the loop is spelled:
+		// range (1 + phi{-1 | 1+self}) and three-clause (phi{0 | 1+self}) forms
+		if s.Name == "+" {
+			for i := 0; i < 2; i++ {
+				if k, ok := symConstInt(s.Args[i]); ok && k == 1 && isCountingPhi(s.Args[1-i], -1) && !cc.seen[s.Args[1-i].V] {
+					return "IDX"
+				}
+			}
+		}
 		a, b := cc.canon(s.Args[0]), cc.canon(s.Args[1])
 		switch s.Name {
 		case "+", "*", "==", "!=":
@@ -465,6 +478,17 @@ func (cc *canonCtx) canon(s *Sym) string {
 			return "(" + b + " < " + a + ")"
 		case ">=":
 			return "(" + b + " <= " + a + ")"
+		case "-":
+			// a - (a/b)*b  is  a % b
+			m := s.Args[1].StripConv()
+			if m.Op == "bin" && m.Name == "*" {
+				for i := 0; i < 2; i++ {
+					q, other := m.Args[i].StripConv(), m.Args[1-i]
+					if q.Op == "bin" && q.Name == "/" && cc.canon(q.Args[0]) == a && cc.canon(q.Args[1]) == cc.canon(other) {
+						return "(" + a + " % " + cc.canon(other) + ")"
+					}
+				}
+			}
 		}
 		return "(" + a + " " + s.Name + " " + b + ")"
 	case "call":
@@ -488,6 +512,102 @@ func (cc *canonCtx) canon(s *Sym) string {
 	return s.Op + ":" + strings.Join(as, ",")
 }
 
+// isCountingPhi: s is a phi whose edges are the constant `start` and itself plus one.
+func isCountingPhi(s *Sym, start int64) bool {
+	s = s.StripConv()
+	ph, ok := s.V.(*ssa.Phi)
+	if !ok || s.Op != "phi" || len(ph.Edges) < 2 {
+		return false
+	}
+	haveStart, haveStep := false, false
+	for _, e := range ph.Edges {
+		if c, isC := e.(*ssa.Const); isC {
+			if k, okk := constDuration(c); okk && k == start {
+				haveStart = true
+				continue
+			}
+			return false
+		}
+		step := false
+		if bo, isB := e.(*ssa.BinOp); isB && bo.Op == token.ADD {
+			if bo.X == ssa.Value(ph) {
+				if k, okk := constDuration(bo.Y); okk && k == 1 {
+					step = true
+				}
+			}
+			if bo.Y == ssa.Value(ph) {
+				if k, okk := constDuration(bo.X); okk && k == 1 {
+					step = true
+				}
+			}
+		}
+		if !step {
+			return false
+		}
+		haveStep = true
+	}
+	return haveStart && haveStep
+}
+
+// canonCond renders a branch condition taken with the given truth value: negations are folded
+// into the comparison operator, > and >= are oriented, and for unsigned operands 0 < x is x != 0.
+func (cc *canonCtx) canonCond(s *Sym, truth bool) string {
+	for s != nil && s.Op == "un" && s.Name == "!" {
+		s, truth = s.Args[0], !truth
+	}
+	if s == nil || s.Op != "bin" {
+		g := cc.canon(s)
+		if !truth {
+			return "!" + g
+		}
+		return g
+	}
+	op := s.Name
+	a, b := cc.canon(s.Args[0]), cc.canon(s.Args[1])
+	if !truth {
+		switch op {
+		case "==":
+			op = "!="
+		case "!=":
+			op = "=="
+		case "<":
+			op = ">="
+		case "<=":
+			op = ">"
+		case ">":
+			op = "<="
+		case ">=":
+			op = "<"
+		default:
+			return "!" + cc.canon(s)
+		}
+	}
+	switch op {
+	case ">":
+		a, b, op = b, a, "<"
+	case ">=":
+		a, b, op = b, a, "<="
+	}
+	unsigned := false
+	if bo, ok := s.V.(*ssa.BinOp); ok {
+		if bt, isB := bo.X.Type().Underlying().(*types.Basic); isB && bt.Info()&types.IsUnsigned != 0 {
+			unsigned = true
+		}
+	}
+	if unsigned {
+		switch {
+		case op == "<" && a == "0":
+			op = "!="
+		case op == "<=" && b == "0":
+			a, b, op = "0", a, "=="
+		}
+	}
+	if (op == "==" || op == "!=") && b < a {
+		a, b = b, a
+	}
+	return "(" + a + " " + op + " " + b + ")"
+}
+
 // summary: canonical description of every credit (key, amount, guards) plus returned values.
 func (p *Prog) effectSummary(fn *ssa.Function) []string {
 	cc := &canonCtx{p: p, fn: fn, seen: map[ssa.Value]bool{}}
@@ -496,12 +616,9 @@ func (p *Prog) effectSummary(fn *ssa.Function) []string {
 		var gs []string
 		for _, e := range DomEdges(b) {
 			iff := e.From.Instrs[len(e.From.Instrs)-1].(*ssa.If)
-			g := cc.canon(p.Sym(iff.Cond))
-			if e.Succ == 1 {
-				g = "!" + g
-			}
+			g := cc.canonCond(p.Sym(iff.Cond), e.Succ == 0)
 			// declared difference: nil-map handling (v1 allocates, v2 returns)
-			if strings.Contains(g, "P2 == nil") || strings.Contains(g, "nil == P2") {
+			if strings.Contains(g, "P2 == nil") || strings.Contains(g, "nil == P2") || strings.Contains(g, "P2 != nil") || strings.Contains(g, "nil != P2") {
 				continue
 			}
 			gs = append(gs, g)
